@@ -519,6 +519,14 @@ func main() {
 			cs = append(cs, srcCase{Name: fmt.Sprintf("ramaddr-%d-store-%v", a, store), Opt: "nodyn", Class: "ram-address", MustReject: a >= 4, Src: src})
 		}
 	}
+	// numeric jump targets in a program of exactly 8 lines (3 address bits) next to a wider instruction
+	// (rset): the last line is fine, line 8 and beyond cannot be named
+	for _, a := range []int{0, 7, 8, 9, 15, 16, 64} {
+		for _, jop := range []string{"j %d", "jz r1, %d"} {
+			body := []string{"mov r1, 3", "inc r0", "mov o0, r0", "dec r1", "jz r1, s", "inc r0", fmt.Sprintf(jop, a)}
+			cs = append(cs, srcCase{Name: fmt.Sprintf("romaddr-%s-%d", strings.Fields(jop)[0], a), Opt: "nodyn", Class: "rom-address", MustReject: a >= 8, Src: prog(8, body, 0, 1)})
+		}
+	}
 	cs = append(cs, srcCase{Name: "undefined-label", Opt: "nodyn", Class: "undefined-label", MustReject: true, Src: prog(8, []string{"inc r0", "jz r0, nowhere", "mov o0, r0"}, 0, 1)})
 	cs = append(cs, srcCase{Name: "unknown-opcode", Opt: "nodyn", Class: "unknown-opcode", MustReject: true, Src: prog(8, []string{"frobnicate r0", "mov o0, r0"}, 0, 1)})
 	cs = append(cs, srcCase{Name: "regsize-0", Opt: "nodyn", Class: "register-size", MustReject: true, Src: prog(0, []string{"inc r0", "mov o0, r0"}, 0, 1)})
